@@ -1,12 +1,12 @@
 #!/bin/sh
 # Parallel must-fail corpus: like selftest.sh, but the corpus is dealt round-robin to N shards (default 3), each with a
 # scratch worktree of its own; solver limits are CPU-time limits, so verdicts do not depend on the load.
-# usage: tools/selftest_par.sh [N]
+# usage: [LIST=file-with-patch-paths] tools/selftest_par.sh [N]   (LIST: run these patches, in this order, instead of the whole corpus)
 cd /verif
 N=${1:-3}
 mkdir -p .work
 CLAIMED=$(python3 -c "import json;print(' '.join(c['property_id'] for c in json.load(open('MANIFEST.json'))['checks']))")
-ls selftest/*.diff seeded/*/patch.diff > .work/selftest.list
+if [ -n "$LIST" ]; then cp "$LIST" .work/selftest.list; else ls selftest/*.diff seeded/*/patch.diff > .work/selftest.list; fi
 i=0
 while [ $i -lt $N ]; do
   (
